@@ -185,6 +185,24 @@ func TestVerifBoundedJWK(t *testing.T) {
 				short++
 			}
 		}
+		if ec, ok := k.pub.(*ecdsa.PublicKey); ok && k.crv == "secp256k1" {
+			// the compressed point of a key read from its JWK: 02/03 by the parity of y, then x at full width
+			jb, _ := json.Marshal(j)
+			var ij jwsutil.JWK
+			if err := ij.UnmarshalJSON(jb); err != nil {
+				kcFail("c16.bytes", "%s: %v", k.name, err)
+				return
+			}
+			got, err := ij.PublicKeyBytes()
+			want := make([]byte, 33)
+			want[0] = 2 + byte(ec.Y.Bit(0))
+			ec.X.FillBytes(want[1:])
+			cases++
+			if err != nil || !bytes.Equal(got, want) {
+				kcFail("c16.bytes", "%s: PublicKeyBytes gives %x (err %v), the compressed point is %x", k.name, got, err, want)
+				return
+			}
+		}
 		back, err := kcReadBack(j)
 		cases++
 		if err != nil || !kcSameKey(k.pub, back) {
@@ -203,6 +221,17 @@ func TestVerifBoundedJWK(t *testing.T) {
 		if e1 != nil || e2 != nil || e3 != nil || e4 != nil || c1 != c2 || rv1 != rv2 {
 			kcFail("c16.commitment", "%s: commitment / reveal value differ between the key and its re-read copy", k.name)
 			return
+		}
+		if k.kty == "OKP" {
+			for name, xb2 := range map[string][]byte{"x one byte shorter": xb[:31], "x one byte longer": append(append([]byte{}, xb...), 0), "x of three bytes": xb[:3], "empty x": {}} {
+				b := *j
+				b.X = base64.RawURLEncoding.EncodeToString(xb2)
+				cases++
+				if _, err := kcReadBack(&b); err == nil {
+					kcFail("c16.reject", "%s: Ed25519 JWK with %s is accepted", k.name, name)
+					return
+				}
+			}
 		}
 		// wrong width / off curve
 		if k.kty == "EC" {
